@@ -482,6 +482,56 @@ func c10ClientX(callers int, callback, closeRace, lateCaller bool, b Bounds) *Sc
 	}
 }
 
+// c10ClientCancel: a Call whose context is cancelled at an arbitrary moment (in particular while its
+// Send is in progress), with a second caller and/or Close competing for the channel.
+func c10ClientCancel(second, closeRace bool, b Bounds) *Scenario {
+	name := "client call+ctx-cancel"
+	if second {
+		name += " +second-caller"
+	}
+	if closeRace {
+		name += " +close"
+	}
+	return &Scenario{
+		Name:   name,
+		Params: map[string]any{"second_caller": second, "close": closeRace},
+		Bounds: b,
+		New: func() *Instance {
+			body := func() {
+				lib, peer, _ := NewPipe(PipeOpts{Name: "cli", CloseUnblocksRecv: true, Monitor: true})
+				c := jrpc2.NewClient(lib, nil)
+				ctx, cancel := context.WithCancel(context.Background())
+				var j Join
+				started := false
+				j.Go("m0", func() { started = true; c.Call(ctx, "m0", nil) })
+				j.Go("cancel", func() { vs.Await(func() bool { return started }, "await call"); cancel() })
+				if second {
+					j.Go("m1", func() { vs.Await(func() bool { return started }, "await call"); c.Notify(context.Background(), "m1", nil) })
+				}
+				if closeRace {
+					j.Go("close", func() { vs.Await(func() bool { return started }, "await call"); c.Close() })
+				}
+				vs.GoNamed("peer", func() {
+					for {
+						if _, ok := peer.Recv(); !ok {
+							break
+						}
+					}
+					peer.Close()
+				})
+				j.Wait()
+				vs.AwaitQuiescence()
+				c.Close()
+			}
+			check := func(x *vs.Exec) []Viol {
+				v := genericRules(x, nil)
+				return append(v, disciplineRules(x, "cli", 1)...)
+			}
+			return &Instance{Body: body, Check: check}
+		},
+	}
+}
+
 func c10ClientScenarios(tier string) []*Scenario {
 	b, bb := Bounds{2, 2, 0}, Bounds{1, 2, 0}
 	if tier != "quick" {
@@ -495,5 +545,7 @@ func c10ClientScenarios(tier string) []*Scenario {
 		c10Client(2, true, true, Bounds{1, 1, 0}),
 		c10ClientX(2, true, false, true, bb),
 		c10ClientX(2, true, true, true, bb),
+		c10ClientCancel(true, false, b),
+		c10ClientCancel(false, true, b),
 	}
 }
